@@ -2,19 +2,32 @@
    to the rows, for the correspondence check. *)
 From Coq Require Import List ZArith Bool Arith.
 From Krrood Require Import Base.Sx Eql.Syntax Eql.Sat Eql.Eval Eql.ShowSpec Eql.EvalDepSpec Eql.EvalDep Eql.ShowDep
-  Eql.EvalDepExec Eql.EvalDepProofs Eql.EvalDepRun Eql.RunProofs.
+  Eql.EvalDepExec Eql.EvalDepProofs Eql.EvalDepRun Eql.RunProofs Eql.EvalDepExists.
 Import ListNotations.
 Open Scope Z_scope.
 
+(* quantifier-free queries ([in_FD]), or one positive existential conjunct over a plain / flattened variable ([in_FDx]);
+   and the executable Spec is the Spec ([dspec_wf]: implied by [in_FD], a computation for [in_FDx]) *)
 Definition dcase_in_FD (c : dcase) : bool :=
-  in_FD (mk_world (e_world (dc_case c))) (mk_domains (e_doms (dc_case c))) (dc_decls c) (e_query (dc_case c)).
+  let W := mk_world (e_world (dc_case c)) in let D := mk_domains (e_doms (dc_case c)) in
+  (in_FD W D (dc_decls c) (e_query (dc_case c)) || in_FDx W D (dc_decls c) (e_query (dc_case c))) && dspec_wf c.
 
 (* the excluded class: the query is in the fragment but for a variable that may be left without a value -- a plain
    variable over an empty domain, a flattened collection that is empty, a sub-query without an answer
    (findings C01-h / C01-h2) *)
+Definition base_ok (ds : decls) (q : query) : bool := wf_ds ds && wf_sub ds && localb ds q && qfree_opt (q_cond q).
 Definition dcase_emptyrange (c : dcase) : bool :=
+  let W := mk_world (e_world (dc_case c)) in let D := mk_domains (e_doms (dc_case c)) in
   let ds := dc_decls c in let q := e_query (dc_case c) in
-  wf_ds ds && wf_sub ds && localb ds q && qfree_opt (q_cond q) && negb (dcase_in_FD c).
+  negb (dcase_in_FD c) && dspec_wf c &&
+  (base_ok ds q ||
+   match q_cond q with
+   | Some cd => match ex_shape cd with
+                | Some (c0, y, body) => ex_side ds (q_sels q) c0 y body && base_ok ds (strip_query q c0 body)
+                | None => false
+                end
+   | None => false
+   end).
 
 (* [model rows; Spec rows; in-fragment flag; the executable Spec is the Spec; empty-range class] *)
 Definition rows_dep (c : dcase) : sx :=
@@ -23,9 +36,17 @@ Definition rows_dep (c : dcase) : sx :=
 Theorem dcase_in_FD_exact c : dcase_in_FD c = true ->
   forall row, In row (runD (mk_world (e_world (dc_case c))) (mk_domains (e_doms (dc_case c))) (dc_decls c) (e_query (dc_case c))) <->
               answerD (mk_world (e_world (dc_case c))) (mk_domains (e_doms (dc_case c))) (dc_decls c) (e_query (dc_case c)) row.
-Proof. apply in_FD_exact. Qed.
+Proof.
+  unfold dcase_in_FD. cbv zeta. intros H. apply andb_prop in H as [H _]. apply orb_prop in H as [H|H].
+  - now apply in_FD_exact.
+  - now apply in_FDx_exact.
+Qed.
 
 Theorem dcase_in_FD_exec c : dcase_in_FD c = true ->
   forall row, In row (runD (mk_world (e_world (dc_case c))) (mk_domains (e_doms (dc_case c))) (dc_decls c) (e_query (dc_case c))) <->
               In row (answers_execD (mk_world (e_world (dc_case c))) (mk_domains (e_doms (dc_case c))) (dc_decls c) (e_query (dc_case c))).
-Proof. apply in_FD_exec. Qed.
+Proof.
+  intros H row. rewrite (dcase_in_FD_exact c H row). symmetry.
+  unfold dcase_in_FD in H. cbv zeta in H. apply andb_prop in H as [_ H]. unfold dspec_wf in H. apply andb_prop in H as [H1 H2].
+  now apply answers_execD_correct.
+Qed.
